@@ -370,3 +370,66 @@ def emit_builder(T, namespace, path, note):
     f.raw("def methodGroups : List (List MethodSpec) := [" + ", ".join(f"methodGroup{gi}" for gi in range(len(groups))) + "]")
     f.list_def("wrappers", "MethodSpec", [row for m, row in zip(T["builder"], rows) if m["kind"] == "wrapper"])
     return write_if_changed(path, f.text())
+
+
+def emit_reflect(T, namespace, path, note):
+    """additional_operands / required_capabilities / required_extensions / id_ref_any / From / unwrap of dr::Operand"""
+    from rusttok import TranslateError
+    R = T["operand_reflect"]
+    hdr = T["header"]
+    kinds, _ = T["core"]
+    vnames = [v for v, _ in T["operand_enum"]]
+    FILE = "rspirv/dr/autogen_operand.rs"
+
+    def values(ty, names, item):
+        if ty in {m["name"] for m in hdr["masks"]}:
+            consts = dict(next(m for m in hdr["masks"] if m["name"] == ty)["consts"])
+            src = consts
+        else:
+            e = hdr["enum_by_name"][ty]
+            src = dict(e["decl"])
+            for a, t in e["aliases"]:
+                src[a] = src[t]
+        out = []
+        for n in names:
+            if n not in src:
+                raise TranslateError(FILE, item, f"unknown {ty}::{n}")
+            out.append(str(src[n]))
+        return "[" + ", ".join(out) + "]"
+
+    def payload_type(v):
+        return dict(T["operand_enum"])[v]
+
+    f = LeanFile(namespace, [], note)
+    # additional_operands: (variant, isMask, rows (values, [(kind, quant)]))
+    rows = []
+    for v, (form, rws) in R["additional_operands"].items():
+        ty = payload_type(v)[7:]
+        rr = []
+        for names, los in rws:
+            for k, q in los:
+                if k not in kinds:
+                    raise TranslateError(FILE, f"additional_operands::{v}", f"unknown kind {k}")
+            lo = "[" + ", ".join(f"({kinds.index(k)}, {QUANT[q]})" for k, q in los) + "]"
+            rr.append(f"({values(ty, names, 'additional_operands::' + v)}, {lo})")
+        rows.append(f"({vnames.index(v)}, {'true' if form == 'mask' else 'false'}, [" + ", ".join(rr) + "])")
+    f.list_def("additionalOperands", "Nat × Bool × List (List Nat × List (Nat × Nat))", rows)
+    for key, lean in (("required_capabilities", "requiredCapabilities"), ("required_extensions", "requiredExtensions")):
+        rows = []
+        for v, (form, rws) in R[key].items():
+            ty = payload_type(v)[7:]
+            if key == "required_capabilities":
+                # capabilities by value (aliases such as ...NV / ...KHR denote the same capability)
+                rr = [f"({values(ty, names, key + '::' + v)}, {values('Capability', items, key + '::' + v)})" for names, items in rws]
+            else:
+                rr = [f"({values(ty, names, key + '::' + v)}, [" + ", ".join(nc(x) for x in items) + "])" for names, items in rws]
+            rows.append(f"({vnames.index(v)}, {'true' if form == 'mask' else 'false'}, [" + ", ".join(rr) + "])")
+        f.list_def(lean, "Nat × Bool × List (List Nat × List Nat)", rows)
+    f.list_def("idRefAny", "Nat", [str(vnames.index(v)) for v in R["id_ref_any"]])
+    f.list_def("idRefAnyMut", "Nat", [str(vnames.index(v)) for v in R["id_ref_any_mut"]])
+    f.list_def("fromImpls", "Nat × Nat", [f"({nc(t)}, {vnames.index(v)})" for t, v in R["from"]])
+    f.list_def("unwraps", "Nat × Nat", [f"({nc('String' if rt == '&str' else rt)}, {vnames.index(v)})" for _, rt, v in R["unwrap"]])
+    PT = {"word": "spirv::Word", "u32": "u32", "u64": "u64", "op": "spirv::Op", "string": "String"}
+    f.list_def("variantPayloadType", "Nat", [nc(PT.get(p, p)) for _, p in T["operand_enum"]])
+    f.list_def("displayArms", "Nat × Nat", [f"({vnames.index(v)}, {dict([('{:?}', 0), ('%{}', 1), ('{:?}[3..]', 2)]).get(fm, 9)})" for v, fm in R["display"]])
+    return write_if_changed(path, f.text())
